@@ -5,7 +5,7 @@ harness/ex_exc.c (real try/catch/throw macros).  Trees carry no ids; ids are ass
 pre-order when the case is encoded, so shrinking never has to keep ids consistent.
 
   ["M"]                         mark
-  ["X", k]                      throw kind k (0 TypeError 1 KeyError 2 ValueError 3 IOError 4 UserExc)
+  ["X", k]                      throw kind k (0 TypeError 1 KeyError 2 ValueError 3 IOError 4 UserExc 5 UserExcEOF 6 User)
   ["C", t]                      real function call around t
   ["S", [t...]]                 sequence
   ["T", filt, body, handler]    try/catch; filt = "A" (catch-all) or a list of 1..3 kinds
@@ -33,7 +33,7 @@ MAX_DEPTH = 6
 MAX_NODES = 40
 RULE = ("case = 1..4 program trees (Seq | Try(filter set of 1..3 kinds or catch-all) | Throw(kind) | Call | Mark | "
         "lexical template 1..4), first tree height <= 6 and <= 40 nodes (templates counted expanded), further trees "
-        "<= 12 nodes, 5 exception kinds incl. a user object; run in one thread by the real macros, trees whose "
+        "<= 12 nodes, 7 exception kinds incl. three user objects whose names are prefixes of one another; run in one thread by the real macros, trees whose "
         "exception escapes run in a forked child; generation is biased to handled-inside-normal-outside, throw/rethrow "
         "from a handler and non-matching inner filters. Trace (marks, handlers with bound object, pre/post of every "
         "construct) is compared exactly with a reference interpreter; depth before == after every construct and 0 "
@@ -49,7 +49,7 @@ ASSUMPTIONS = ["filters are sets: `catch (e in X, X)` (the same object twice) is
                "a body or handler (where the pop happens is the implementation's choice)",
                "single thread; an uncaught exception is observed as exit status and stderr of a forked child"]
 
-KN = ["TypeError", "KeyError", "ValueError", "IOError", "UserExc"]
+KN = ["TypeError", "KeyError", "ValueError", "IOError", "UserExc", "UserExcEOF", "User"]
 NK = len(KN)
 # per template: (filter arity per lexical level (0 = catch-all), number of slots)
 TMPL = {1: ([2, 1], 5), 2: ([0, 3], 5), 3: ([1, 0, 2], 8), 4: ([3, 0, 1], 7)}
